@@ -1,7 +1,7 @@
 //! child of `token_predictor`: predict_block / recreate_block mirror over the model chain (C02, C08)
 #![allow(unused_imports, dead_code)]
 use super::*;
-use crate::hash_chain_holder::verif_harness::{boxed_model_holder, valid_reference, ModelChain, MC_T};
+use crate::hash_chain_holder::verif_harness::{boxed_model_holder, same_dictionary_updates, valid_reference, ModelChain, MC_T, UPD_SIDE};
 use crate::verif_common::*;
 
 pub fn mk_predictor<'a>(text: &'a [u8], p: &TokenPredictorParameters, m: ModelChain, four: bool) -> TokenPredictor<'a> {
@@ -57,11 +57,13 @@ fn token_mirror<const T: usize>(maxtok: usize, kmax: usize, four: bool, lazy: bo
 
     let mut rec = Rec::new();
     let mut pa = mk_predictor(&text[..len], &p, m, four);
+    unsafe { UPD_SIDE = 0; }
     let r = pa.predict_block(&blk, &mut rec, last);
     let ok = r.is_ok();
     if ok {
         assert!(pa.input.pos() as usize == covered);
         let mut pb = mk_predictor(&text[..len], &p, m, four);
+        unsafe { UPD_SIDE = 1; }
         let rb = pb.recreate_block(&mut rec);
         assert!(rb.is_ok(), "recreate_block fails on corrections predict_block produced");
         let b2 = rb.unwrap();
@@ -74,6 +76,7 @@ fn token_mirror<const T: usize>(maxtok: usize, kmax: usize, four: bool, lazy: bo
         }
         assert!(pb.input.pos() as usize == covered);
         assert!(rec.fully_consumed(), "reconstruction did not consume the corrections exactly");
+        assert!(same_dictionary_updates(), "analysis and reconstruction inserted different positions into the dictionary");
         core::mem::forget(b2);
         core::mem::forget(pb);
     }
@@ -89,3 +92,35 @@ kproof! { fn k02e_token_mirror_lazy_h3() { token_mirror::<8>(3, 2, false, true);
 kproof! { fn k02e_token_mirror_greedy_h4() { token_mirror::<8>(3, 2, true, false); } }
 kproof! { fn k02e_token_mirror_lazy_h4() { token_mirror::<8>(3, 2, true, true); } }
 kproof! { fn k02e_token_mirror_lazy_h3_t10() { token_mirror::<10>(4, 3, false, true); } }
+
+/// stored block followed by nothing: the dictionary must be driven identically by both sides (the bytes of a
+/// stored block are the context of every later match)
+fn stored_mirror(four: bool) {
+    let text: [u8; 6] = kani::any();
+    let n: usize = kani::any();
+    kani::assume(n >= 1 && n <= 6);
+    let p = any_predictor_params();
+    let m = ModelChain::any(n, 1, if four { 4 } else { 3 });
+    let mut blk = PreflateTokenBlock::new(BlockType::Stored);
+    let mut i = 0;
+    while i < 6 { if i < n { blk.uncompressed.push(text[i]); } i += 1; }
+    blk.padding_bits = kani::any();
+    kani::assume(blk.padding_bits < 32);
+    let mut rec = Rec::new();
+    let mut pa = mk_predictor(&text[..n], &p, m, four);
+    unsafe { UPD_SIDE = 0; }
+    let r = pa.predict_block(&blk, &mut rec, true);
+    assert!(r.is_ok());
+    let mut pb = mk_predictor(&text[..n], &p, m, four);
+    unsafe { UPD_SIDE = 1; }
+    let b2 = pb.recreate_block(&mut rec).unwrap();
+    assert!(b2.block_type == BlockType::Stored && b2.uncompressed.len() == n && b2.padding_bits == blk.padding_bits);
+    let mut i = 0;
+    while i < 6 { if i < n { assert!(b2.uncompressed[i] == text[i]); } i += 1; }
+    assert!(rec.fully_consumed());
+    assert!(same_dictionary_updates(), "analysis and reconstruction inserted different positions into the dictionary for a stored block");
+    kani::cover!(n == 6, "six stored bytes");
+    core::mem::forget(b2); core::mem::forget(pa); core::mem::forget(pb); core::mem::forget(blk);
+}
+kproof! { fn k02e_stored_mirror_h3() { stored_mirror(false); } }
+kproof! { fn k02e_stored_mirror_h4() { stored_mirror(true); } }
